@@ -1669,7 +1669,7 @@ class PyExec:
             v, t = args[0], args[1]
             tn = t.name if isinstance(t, (ModuleRef, Builtin)) else None
             if tn in ("numpy.ndarray", "np.ndarray"):
-                return isinstance(v, Ref) and isinstance(st.heap[v.id], NDArr)
+                return isinstance(v, Ref) and (isinstance(st.heap[v.id], NDArr) or (isinstance(st.heap[v.id], Record) and st.heap[v.id].cls == "ndarray"))
             if tn == "float" and is_sym(v):
                 return v.sort() == z3.RealSort()
             if tn == "int" and is_sym(v):
